@@ -278,6 +278,7 @@ def gen_program(rng, opts=None):
         rl = o["allow_resetless_domain"] and r.random() < 0.2
         domains.append({"name": "d%d" % i, "edge": r.choice(["pos", "pos", "neg"]),
                         "async_reset": bool(o["allow_async"] and not rl and r.random() < 0.3), "reset_less": rl})
+    o["_rl_domains"] = {d["name"] for d in domains if d["reset_less"]}
     names = ["a", "b", "c", "x", "y", "a", "q", "s"]
     sigs = g.sigs
     n_in = r.randint(2, 4)
@@ -597,6 +598,10 @@ def _gen_print(g, r, dom, readable, o):
             if r.random() < 0.4:
                 parts.append(["const", 0, 8 * r.randint(1, 2), False])
             e = ["cat", parts]
+            if o.get("format_extras", True) and r.random() < 0.2:
+                # the whole text is a constant
+                text = "".join(r.choice("abcXYZ019 _") for _ in range(r.randint(1, 4)))
+                e = ["const", int.from_bytes(text.encode(), "little"), 8 * len(text) + 8 * r.randint(0, 1), False]
         if not spec.endswith(("c", "s")) and r.random() < 0.2:
             # the width given by a nested replacement field (automatic numbering: the value first, then the nested argument)
             ty = spec[-1] if spec and spec[-1] in "dboxX" else ""
@@ -617,6 +622,9 @@ def _gen_print(g, r, dom, readable, o):
                 # a conversion flag of the format-string syntax (!s, !r, !a) and no specification: for an integer Python prints
                 # what "{}" prints; Format may refuse the flag when the statement is built, or must print that
                 chunks[-1] = [e, "", [], {"conv": r.choice(["s", "r", "a"])}]
+    if o.get("format_extras", True) and dom not in o.get("_rl_domains", ()) and r.random() < 0.12:
+        # the domain's own reset, late bound, as a printed value
+        chunks.append([["rst", dom], r.choice(["", "b", "d"])])
     if r.random() < 0.3:
         chunks.append(r.choice(["!", " end", ""]))
     if o.get("asserts") and r.random() < 0.35:
